@@ -295,6 +295,16 @@ Theorem C11_source_tie_skeleton_runs_are_model_runs : forall cfg acts evs g s,
 Proof. exact gen_skeleton_run_is_model_run. Qed.
 Print Assumptions C11_source_tie_skeleton_runs_are_model_runs.
 
+(** the model state coupled to a run of the skeleton semantics is REACHABLE in the model, and the state of the skeleton
+    semantics stands in for it: so every theorem above about reachable model states ([C10_invariant], [C10_received_prefix],
+    [C11_return_after_finish], [C11_quiescent_after_return], ...) holds of the model state coupled to ANY data-consistent
+    run of the regenerated skeleton, whatever the schedule *)
+Theorem C11_skeleton_coupled_state_reachable : forall cfg acts evs g s,
+  let Pg := program gen_pipe_skeleton in
+  crun Pg cfg (ginit Pg (c_targets cfg)) (init cfg) acts evs g s -> reachable cfg s /\ skel_rel cfg g s.
+Proof. exact gen_crun_reachable. Qed.
+Print Assumptions C11_skeleton_coupled_state_reachable.
+
 (** related states: when every goroutine of the skeleton semantics has returned, the model state is final *)
 Theorem C11_skeleton_all_returned_is_final : forall cfg g s, skel_rel cfg g s -> gfinal g = true -> final s = true.
 Proof. exact gen_gfinal_final. Qed.
